@@ -17,8 +17,11 @@ def evaluate_case(case, res):
     if pv["timeout"]:
         out.append(V("C09", "timeout", {"wall": pv["wall"]}))
     elif cls["panicked"] or pv["rc"] not in (0, 1):
+        from e2e import patterns
+        pat = patterns.pattern_for_panic(case["spec"], cls["panic_loc"], cls["panic_msg"])
+        extra = {"pattern": pat} if pat is not None else {}
         out.append(V("C09", "panic", {"rc": pv["rc"], "msg": cls["panic_msg"], "loc": cls["panic_loc"], "stderr": pv["stderr"][-2500:]},
-                     loc=norm_loc(cls["panic_loc"]), msg=norm_msg(cls["panic_msg"])))
+                     loc=norm_loc(cls["panic_loc"]), msg=norm_msg(cls["panic_msg"]), **extra))
     elif pv["rc"] != 0 and cls["n_error"] == 0:
         out.append(V("C09", "failure_without_diagnostic", {"rc": pv["rc"], "stderr": pv["stderr"][-2500:]}))
     if pv["rc"] != 0 and pv["sdk_changed"]:
@@ -37,8 +40,11 @@ def evaluate_case(case, res):
                     out.append(V("C20", "overlapping_guards_accepted", {"guards": [doms[i], doms[j]], "common_host": h}, part="conflict", kinds="_vs_".join(kinds)))
     # ---- C02
     if case["mode"] == "inclass" and not accepted and not pv["timeout"]:
+        from e2e import patterns
+        pat = patterns.pattern_for_panic(case["spec"], cls["panic_loc"], cls["panic_msg"]) if cls["panicked"] else None
+        extra = {"pattern": pat} if pat is not None else {}
         out.append(V("C02", "inclass_rejected", {"rc": pv["rc"], "first_lines": cls["first_lines"], "panic": cls["panic_msg"], "stderr": pv["stderr"][-3000:]},
-                     diag=norm_msg(cls["first_lines"][0] if cls["first_lines"] else (cls["panic_msg"] or "")), panic=bool(cls["panicked"])))
+                     diag=norm_msg(cls["first_lines"][0] if cls["first_lines"] else (cls["panic_msg"] or "")), panic=bool(cls["panicked"]), **extra))
     if not accepted:
         return out, None, "rejected"
     # ---- C01
